@@ -123,6 +123,8 @@ def render_display(M, r, out, ty_hint=None):
         if v.name == 'ParseIntError':
             out.extend(PARSE_INT_MSG[v.fields[0].n].encode()); return
         if v.name == 'Cow': render_display(M, v.fields[0], out); return
+        if v.name in ('DateTime', 'NaiveDateTime', 'SystemTime'):
+            out.extend(b'<datetime>'); return
         if v.name == 'LinesCodecError':
             out.extend(b'max line length exceeded' if v.variant == 0 else b'<io error>'); return
         if v.name in ('SendError', 'TryRecvError', 'ParseBoolError', 'ValidationError', 'ValidationErrors'):
